@@ -356,7 +356,10 @@ Definition merge_cell8 nr umax max_count decode := merge_cell nr umax max_count 
 (* ------------------------------------------------------------------ table hypotheses (DESIGN 3.4),
    as boolean checks evaluated on the concrete tables read from the implementation *)
 Definition f_eqb (x y : float) : bool := PrimFloat.eqb x y.
-Definition zrange (lo n : Z) : list Z := map (fun i => lo + Z.of_nat i) (seq 0 (Z.to_nat n)).
+(* [lo; lo+1; ...; lo+n-1], linear time under vm_compute *)
+Fixpoint zrange_aux (n : nat) (lo : Z) : list Z :=
+  match n with O => [] | S n' => lo :: zrange_aux n' (lo + 1) end.
+Definition zrange (lo n : Z) : list Z := zrange_aux (Z.to_nat n) lo.
 
 Definition decode_reserved_b (nr : Z) (decode : Z -> float) : bool :=
   forallb (fun c => f_eqb (decode c) (z2f c)) (zrange 0 (nr + 2)).
@@ -367,27 +370,35 @@ Definition powneg_ok_b (nr umax : Z) (powneg : Z -> float) : bool :=
   forallb (fun c => PrimFloat.ltb (powneg (c + 1)) (powneg c) && PrimFloat.ltb f_zero (powneg (c + 1)))
           (zrange 0 (umax - nr)).
 
-(* exact dyadic value of a finite float: (m, e) with value m * 2^e *)
-Definition f2me (x : float) : Z * Z :=
+(* exact dyadic value of a finite float: (m, e) with value m * 2^e.
+   f2me_spec reads it off the standard library's Prim2SF; f2me computes the same pair straight from
+   the primitives frshiftexp / normfr_mantissa (20x faster under vm_compute; the harness compares
+   the two on a sample of every table). *)
+Definition f2me_spec (x : float) : Z * Z :=
   match FloatOps.Prim2SF x with
   | SpecFloat.S754_finite s m e => (if s then Zneg m else Zpos m, e)
   | _ => (0, 0)
   end.
-Definition is_finite_b (x : float) : bool :=
-  match FloatOps.Prim2SF x with
-  | SpecFloat.S754_finite _ _ _ => true
-  | SpecFloat.S754_zero _ => true
-  | _ => false
-  end.
+Definition is_finite_b (x : float) : bool := PrimFloat.eqb (x - x)%float f_zero.
+Definition f2me (x : float) : Z * Z :=
+  let '(r, ex) := frshiftexp (PrimFloat.abs x) in
+  let m := Uint63.to_Z (normfr_mantissa r) in
+  ((if PrimFloat.ltb x f_zero then - m else m), Uint63.to_Z ex - 2101 - 53).
+(* same value: m1 * 2^e1 = m2 * 2^e2 *)
+Definition dy_eqb (a b : Z * Z) : bool :=
+  let e := Z.min (snd a) (snd b) in
+  Z.shiftl (fst a) (snd a - e) =? Z.shiftl (fst b) (snd b - e).
+Definition f2me_agree_b (tab : Z -> float) (cs : list Z) : bool :=
+  forallb (fun c => dy_eqb (f2me (tab c)) (f2me_spec (tab c))) cs.
 (* |a - b| <= 2^(-k) * |b| for dyadic a = (ma,ea), b = (mb,eb), exactly *)
 Definition dy_close (k : Z) (a b : Z * Z) : bool :=
   let '(ma, ea) := a in let '(mb, eb) := b in
   let e := Z.min ea eb in
-  let xa := ma * 2 ^ (ea - e) in let xb := mb * 2 ^ (eb - e) in
-  Z.abs (xa - xb) * 2 ^ k <=? Z.abs xb.
+  let xa := Z.shiftl ma (ea - e) in let xb := Z.shiftl mb (eb - e) in
+  Z.shiftl (Z.abs (xa - xb)) k <=? Z.abs xb.
 Definition dy_mul (a b : Z * Z) : Z * Z := (fst a * fst b, snd a + snd b).
 Definition dy_add (a b : Z * Z) : Z * Z :=
-  let e := Z.min (snd a) (snd b) in (fst a * 2 ^ (snd a - e) + fst b * 2 ^ (snd b - e), e).
+  let e := Z.min (snd a) (snd b) in (Z.shiftl (fst a) (snd a - e) + Z.shiftl (fst b) (snd b - e), e).
 Definition dy_of_Z (z : Z) : Z * Z := (z, 0).
 (* powneg (c+1) * base = powneg c   within 2^-k relative, in exact arithmetic *)
 Definition powneg_recurrence_b (k : Z) (base : float) (powneg : Z -> float) (cs : list Z) : bool :=
